@@ -156,7 +156,7 @@ func runC07(c *Ctx) {
 			r.Violate("delegate-reach", core.FnName(fn), p.FnPos(fn), "reaches a parser loop but neither tokenizes nor accepts tokens")
 		}
 	}
-	r.Floor("delegate-reach", len(entries), 15, "delegating entry points")
+	r.Floor("delegate-reach", len(entries), 10, "delegating entry points")
 	ep := newErrProv(p, "pkg/errors", inScope)
 	for _, fn := range entries {
 		c07Delegation(c, p, ep, fn, inScope)
@@ -198,7 +198,7 @@ func runC07(c *Ctx) {
 			}
 		}
 	}
-	r.Floor("delegate-input", ni, 10, "text arguments handed to the tokenizer or to another entry point")
+	r.Floor("delegate-input", ni, 6, "text arguments handed to the tokenizer or to another entry point")
 	// delegate-config: parser / tokenizer configuration (With*, Set* of those packages) in an entry point comes from
 	// the entry point's own configuration parameters or constants, never from the text being parsed
 	r.Rule("delegate-config", "in an entry point, arguments of parser/tokenizer configuration calls (With…/Set… of pkg/sql/parser and pkg/sql/tokenizer) do not depend on the SQL text parameter: an entry point that guesses its configuration from the text parses under different rules than its siblings")
